@@ -3,6 +3,7 @@
 checks related to the files touched), reverts, and writes seeded/<id>/detection.json"""
 import json, os, re, subprocess, sys, time
 VERIF = '/verif'
+REPO = os.environ.get('SEED_REPO', '/tmp/repo_seed')     # scratch clone of /repo (git clone /repo /tmp/repo_seed)
 REL = [('gm2_ffunctions', ['C01', 'C02', 'C11']), ('gm2_dilog', ['C01']), ('THDM/gm2_2loop_B', ['C11', 'C10']), ('THDM/gm2_2loop_F', ['C10', 'C19']),
        ('THDM/gm2_1loop_H', ['C03', 'C10']), ('MSSMNoFV/gm2_1loop', ['C03', 'C06', 'C07', 'C19']), ('MSSMNoFV/gm2_2loop', ['C06', 'C07', 'C19']),
        ('MSSMNoFV_onshell_mass_eigenstates', ['C04', 'C06']), ('MSSMNoFV_onshell.cpp', ['C05', 'C16']), ('gm2_eigen_utils', ['C04', 'C08']),
@@ -30,16 +31,16 @@ def main():
         for frag, ids in REL:
             if any(frag in f for f in files):
                 cands += [i for i in ids if i not in cands]
-        if run('git -C /repo diff --quiet').returncode != 0:
+        if run('git -C %s diff --quiet' % REPO).returncode != 0:
             print('repo not clean'); sys.exit(2)
-        if run('git -C /repo apply %s' % patch).returncode != 0:
+        if run('git -C %s apply %s' % (REPO, patch)).returncode != 0:
             print(d, 'patch does not apply'); continue
         res = {'files': files, 'checks': {}}
         detected = []
         try:
             for cid in cands:
                 t = time.time()
-                r = run('cd %s && ./check %s --tier quick' % (VERIF, cid), timeout=1800)
+                r = run('cd %s && GM2CALC_REPO=%s VERIF_EVIDENCE_DIR=/tmp/seed_evidence ./check %s --tier quick' % (VERIF, REPO, cid), timeout=1800)
                 viol = [l.strip() for l in r.stdout.split('\n') if l.startswith('VIOLATION')]
                 desc = [l.strip()[:300] for l in r.stdout.split('\n') if l.startswith('  ') and ':' in l][:2]
                 res['checks'][cid] = {'exit': r.returncode, 'violations': len(viol), 'first': desc[:1], 'wall_s': round(time.time() - t, 1)}
@@ -52,7 +53,7 @@ def main():
                 if detected and cid != own:
                     break
         finally:
-            run('git -C /repo checkout -- .')
+            run('git -C %s checkout -- .' % REPO)
         res['detected_by'] = detected
         json.dump(res, open(os.path.join(sd, 'detection.json'), 'w'), indent=1)
         print(d, 'detected by', detected, {k: v['exit'] for k, v in res['checks'].items()}, flush=True)
